@@ -641,7 +641,7 @@ def process_hooks(mon, rng):
     kinds = {h: rng.choice(["function", "partial", "callable_object", "bound_method"]) for h in HOOK_NAMES}
     proj = Project(case["program"], {"hook_objects": kinds})
     try:
-        res = proj.run(case["args"] + ["-f", "plain"])
+        res = proj.run(case["args"] + ["-f", "plain"], environment=RB.pick_environment(rng, mon))
     finally:
         proj.close()
     c2 = dict(case, hook_objects=kinds)
